@@ -861,7 +861,9 @@ def history_oracle(ctx, rng, nr, count, deep):
             if not (same_corr and ok_twin and ok_ref):
                 ctx.fail_input('probability_density', dict(inp_of(mb, vname, P, probes), **hist),
                                {'instance': r[1][:4], 'fresh twin fitted on B': t_pdf[1][:4], 'mvn of own scores, own correlation': ref[:4],
-                                'correlation equals twin': same_corr},
+                                'correlation equals twin': same_corr,
+                                'diff vs twin': first_diff(r[1], t_pdf[1]) if r[0] == t_pdf[0] == 'ok' else 'raises',
+                                'diff vs reference': first_diff(r[1], ref) if r[0] == 'ok' else 'raises'},
                                'probability_density of a fitted model depends on its current fit only (= fresh model fitted on the '
                                'same data = MVN(0, current correlation) at the current normal scores)',
                                'probability_density:depends-on-fit-history')
@@ -869,7 +871,8 @@ def history_oracle(ctx, rng, nr, count, deep):
             checks += 1
             if not (rl[0] == t_log[0] and (rl[0] != 'ok' or same_bits(rl[1], t_log[1]))):
                 ctx.fail_input('log_probability_density', dict(inp_of(mb, vname, P, probes), **hist),
-                               {'instance': rl[1][:4], 'fresh twin fitted on B': t_log[1][:4]},
+                               {'instance': rl[1][:4], 'fresh twin fitted on B': t_log[1][:4],
+                                'diff': first_diff(rl[1], t_log[1]) if rl[0] == t_log[0] == 'ok' else 'raises'},
                                'log_probability_density depends on the current fit only', 'log_probability_density:depends-on-fit-history')
             rc = call(lambda: v.cumulative_distribution(P.iloc[:3]))
             checks += 1
